@@ -484,6 +484,12 @@ def make_builtins():
     for name, fn in [('int', _int), ('float', _float), ('str', _str), ('bool', _bool), ('list', _list),
                      ('tuple', _tuple), ('set', _set), ('dict', _dict)]:
         b[name] = TypeObj(name, fn, TYPE_TAGS[name])
+    def _slice(e, a, k, n):
+        a = [concretize(x) for x in a]
+        if len(a) == 1:
+            return slice(None, a[0], None)
+        return slice(*a)
+    b['slice'] = TypeObj('slice', _slice, ('slice',))
     b['bytes'] = TypeObj('bytes', lambda e, a, k, n: a[0] if a else '', TYPE_TAGS['bytes'])
     b['object'] = TypeObj('object', lambda e, a, k, n: Obj('object', {}), TYPE_TAGS['object'])
     b['frozenset'] = TypeObj('frozenset', lambda e, a, k, n: frozenset(_set(e, a, k, n)), TYPE_TAGS['frozenset'])
